@@ -3,6 +3,7 @@ package main
 import (
 	"fmt"
 	"reflect"
+	"sync/atomic"
 	"strings"
 
 	"gitee.com/xuesongtao/protoc-go-valid/valid"
@@ -192,8 +193,29 @@ func (c structCall) toCase(tags []string, probe string) Case {
 	}
 }
 
+// varAltCounter alternates the API forms of a rule-less Var call (no SetRules call at all)
+var varAltCounter atomic.Int64
+
 func varCase(src interface{}, rules []string, tags []string, probe string) Case {
-	impl := observed(src, nil, func() string { return guard(func() string { return errStr(valid.Var(src, rules...)) }) })
+	impl := observed(src, nil, func() string {
+		return guard(func() string {
+			if len(rules) == 0 {
+				// the same call without touching the rule table: a validator straight from the pool, or VarForFn
+				switch varAltCounter.Add(1) % 3 {
+				case 0:
+					return errStr(valid.NewVVar().Valid(src))
+				case 1:
+					return errStr(valid.VarForFn(src, markerFn("unused")))
+				}
+			}
+			return errStr(valid.Var(src, rules...))
+		})
+	})
+	return varCaseWith(src, rules, tags, probe, impl)
+}
+
+// varCaseWith: the request for Var(src, rules...) with a result obtained by the caller
+func varCaseWith(src interface{}, rules []string, tags []string, probe string, impl string) Case {
 	s, sp := encodeSrcCtx(src)
 	rs := make([]string, len(rules))
 	for i, r := range rules {
